@@ -19,6 +19,7 @@
     independence hypothesis is FALSE of the code (finding F5), by a concrete witness.
 -/
 import DDProofs.ImageF5
+import DDProofs.QuantCor
 namespace DD
 open Std
 
@@ -95,6 +96,91 @@ theorem C13_adjacent_mono (rn : List (Int × Int)) (S : Nat → Prop)
     ∀ j j', S j → S j' → j < j' → renOf rn j < renOf rn j' :=
   renOf_mono rn S hval hadj hinj hdis
 
+/-- non-vacuity (`C13_imageF`, `C13_imageF_image`): `_image` as `image` calls it on the example
+manager (`x` < `xp`): `∃ x. (x ↔ xp) ∧ (x ∨ xp)`, then `xp` renamed to `x`, is `x` -/
+example : ∃ r c' m', imageF (some [(1, 0)]) none [0] false 8 3 4 {} imgM = (.ok (r, c'), m') ∧
+    ∀ a, den m'.tbl r a = a 0 := by
+  have hP : ImgOK (some [(1, 0)]) none [0] (renOf [(1, 0)]) id (fun j => j < 2) imgM.nvars := by
+    refine ⟨?_, fun j hj => ⟨rfl, by rw [imgM_nvars']; exact hj⟩, rfl, fun _ _ _ _ h => h⟩
+    intro z hz hq
+    rw [imgM_nvars'] at hz ⊢
+    have : z = 1 := by
+      match z, hz with
+      | 0, _ => simp at hq
+      | 1, _ => rfl
+    subst this
+    decide
+  obtain ⟨r, c', m', he, _, _, _, _, _, hd⟩ := C13_imageF (some [(1, 0)]) none [0] false
+    (renOf [(1, 0)]) id (fun j => j < 2) 8 imgM 3 4 {} hP imgM_inv rfl
+    (imgM_mem _ (by decide)) (imgM_mem _ (by decide))
+    (fun j hj => by have := hj.lt_nvars imgM_inv.wf.toWF; rwa [imgM_nvars] at this)
+    (IMemo.empty _ _ _ _ _) (by rw [imgM_nvars']; omega)
+  refine ⟨r, c', m', he, fun a => bool_eq_of_iff ?_⟩
+  rw [hd a]
+  have e1 : renOf [(1, 0)] 1 = 0 := by decide
+  constructor
+  · rintro ⟨b, hb, hf⟩
+    have hb1 := hb 1 (by simp)
+    dsimp only at hb1 hf
+    rw [e1] at hb1
+    rw [imgM_den3, imgM_den4] at hf
+    simp only [id] at hf
+    rw [← hb1]
+    revert hf
+    cases b 0 <;> cases b 1 <;> simp
+  · intro ha
+    refine ⟨upd (fun z => a (renOf [(1, 0)] z)) 0 true,
+      agreeOff_upd (by simp) true (AgreeOff.refl _ _), ?_⟩
+    dsimp only
+    rw [imgM_den3, imgM_den4]
+    simp [upd, e1, ha]
+
+/-- non-vacuity (`C13_imageF_preimage`, `C13_adjacent_mono`): `_image` as `preimage` calls it:
+`∃ xp. (x ↔ xp) ∧ xp` (the target `x` renamed to `xp`) is `x` -/
+example : ∃ r c' m', imageF none (some [(0, 1)]) [1] false 8 3 5 {} imgM = (.ok (r, c'), m') ∧
+    ∀ a, den m'.tbl r a = a 0 := by
+  have hW := imgM_inv.wf.toWF
+  have hS : ∀ j, InSupp imgM.tbl 5 j → j = 0 := by
+    intro j hj
+    cases hj with
+    | here h1 hn => rw [show (5 : Int).natAbs = 5 from rfl, imgM_node5] at hn; cases hn; rfl
+    | lo h1 hn h =>
+      rw [show (5 : Int).natAbs = 5 from rfl, imgM_node5] at hn; cases hn
+      cases h with
+      | here h1 _ => exact absurd rfl h1
+      | lo h1 _ _ => exact absurd rfl h1
+      | hi h1 _ _ => exact absurd rfl h1
+    | hi h1 hn h =>
+      rw [show (5 : Int).natAbs = 5 from rfl, imgM_node5] at hn; cases hn
+      cases h with
+      | here h1 _ => exact absurd rfl h1
+      | lo h1 _ _ => exact absurd rfl h1
+      | hi h1 _ _ => exact absurd rfl h1
+  have hmono := C13_adjacent_mono [(0, 1)] (fun j => j = 0) (by decide) (by decide)
+    (by intro p p' hp hp' _; simp at hp hp'; rw [hp, hp'])
+    (by intro p hp j hj; simp at hp; subst hp hj; decide)
+  obtain ⟨r, c', m', he, _, _, _, _, _, hd⟩ := C13_imageF_preimage [(0, 1)] [1] false
+    (renOf [(0, 1)]) (fun j => j = 0) 8 imgM 3 5 {} imgM_inv rfl
+    (imgM_mem _ (by decide)) (imgM_mem _ (by decide)) hS
+    (fun j hj => by subst hj; rw [imgM_nvars']; decide) (by rw [imgM_nvars']; decide) hmono
+    (IMemo.empty _ _ _ _ _) (by rw [imgM_nvars']; omega)
+  refine ⟨r, c', m', he, fun a => bool_eq_of_iff ?_⟩
+  rw [hd a]
+  have e0 : renOf [(0, 1)] 0 = 1 := by decide
+  constructor
+  · rintro ⟨b, hb, hf⟩
+    have hb0 := hb 0 (by simp)
+    dsimp only at hf
+    rw [imgM_den3, imgM_den5, e0] at hf
+    rw [← hb0]
+    revert hf
+    cases b 0 <;> cases b 1 <;> simp
+  · intro ha
+    refine ⟨upd a 1 true, agreeOff_upd (by simp) true (AgreeOff.refl _ _), ?_⟩
+    dsimp only
+    rw [imgM_den3, imgM_den5]
+    simp [upd, e0, ha]
+
 /-! ### `image` -/
 
 /-- C13 (`image(trans, source, rename, qvars, bdd, forall)`), both quantifier kinds, keys given
@@ -121,6 +207,98 @@ theorem C13_image (m : Mgr) (hI : Inv m) (hoff : m.lastLen = none) (hV : VarsBij
           (fun z => a (renOf (intPairs (resolveRename m.tbl rn)) z)) :=
   image_spec m hI hoff hV trans source hu hv rn qvars fa q hq hov hnl hlv htg
 
+/-- C13 (`image`, renaming and `qvars` given BY NAME): declared names, pairwise distinct keys, no
+key is a value, every target quantified or outside the supports; any order. -/
+theorem C13_image_names (m : Mgr) (hI : Inv m) (hoff : m.lastLen = none) (hV : VarsBij m.tbl)
+    (trans source : Int) (hu : m.tbl.Mem trans) (hv : m.tbl.Mem source)
+    (l : List (String × String)) (qs : List String) (fa : Bool)
+    (hkeys : (l.map (·.1)).Nodup)
+    (hd : ∀ p, p ∈ l → m.tbl.vars.contains p.1 = true ∧ m.tbl.vars.contains p.2 = true)
+    (hqd : ∀ s, s ∈ qs → m.tbl.vars.contains s = true)
+    (hov : ∀ p p', p ∈ l → p' ∈ l → p.2 ≠ p'.1)
+    (htg : ∀ p, p ∈ l → p.2 ∈ qs ∨ (¬ dependsOn m.tbl trans (lvlOf m.tbl p.2) ∧
+      ¬ dependsOn m.tbl source (lvlOf m.tbl p.2))) :
+    ∃ r m', image trans source (l.map fun p => (Key.name p.1, Key.name p.2))
+        (qs.map Key.name) fa m = (.ok r, m') ∧ Inv m' ∧ Ext m.tbl m'.tbl ∧
+      m'.tbl.Mem r ∧ Frame m m' ∧
+      ∀ a, den m'.tbl r a = true ↔
+        qsem fa (qs.map (lvlOf m.tbl)) (fun b => den m.tbl trans b && den m.tbl source b)
+          (fun z => a (renOf
+            (l.map fun p => ((lvlOf m.tbl p.1 : Int), (lvlOf m.tbl p.2 : Int))) z)) :=
+  image_spec_names m hI hoff hV trans source hu hv l qs fa hkeys hd hqd hov htg
+
+/-- C13 (the renaming given BY LEVEL, pairwise distinct keys): `resolveRename` and `intPairs`
+return the items themselves -/
+theorem C13_rename_levels (t : Tbl) (l : List (Int × Int)) (h : (l.map (·.1)).Nodup) :
+    resolveRename t (l.map fun p => (Key.lvl p.1, Key.lvl p.2)) =
+      l.map (fun p => (Key.lvl p.1, Key.lvl p.2)) ∧
+    intPairs (l.map fun p => (Key.lvl p.1, Key.lvl p.2)) = l :=
+  intPairs_resolveRename_levels t l h
+
+theorem imgM_contains_x : imgM.tbl.vars.contains "x" = true :=
+  (vars_contains_iff _ _).mpr ⟨0, imgM_vars_x⟩
+theorem imgM_contains_xp : imgM.tbl.vars.contains "xp" = true :=
+  (vars_contains_iff _ _).mpr ⟨1, imgM_vars_xp⟩
+
+/-- non-vacuity (`C13_image_names`, both quantifier kinds): the successors of the set `x ∨ xp`
+under the relation `x ↔ xp`... with names: `image(x ↔ xp, x ∨ xp, {xp: x}, {x})` returns a
+reference of `Q x. (x ↔ xp) ∧ (x ∨ xp)` with `xp` renamed to `x`; for `∃` this is `x` -/
+example : (∀ fa, ∃ r m', image 3 4 [(.name "xp", .name "x")] [.name "x"] fa imgM = (.ok r, m')) ∧
+    ∃ r m', image 3 4 [(.name "xp", .name "x")] [.name "x"] false imgM = (.ok r, m') ∧
+      ∀ a, den m'.tbl r a = a 0 := by
+  have key : ∀ fa, _ := fun fa => C13_image_names imgM imgM_inv rfl imgM_varsBij 3 4
+    (imgM_mem _ (by decide)) (imgM_mem _ (by decide)) [("xp", "x")] ["x"] fa (by simp)
+    (by intro p hp; simp at hp; subst hp; exact ⟨imgM_contains_xp, imgM_contains_x⟩)
+    (by intro s hs; simp at hs; subst hs; exact imgM_contains_x)
+    (by intro p p' hp hp'; simp at hp hp'; subst hp hp'; decide)
+    (by intro p hp; simp at hp; subst hp; exact Or.inl (by simp))
+  refine ⟨fun fa => ?_, ?_⟩
+  · obtain ⟨r, m', he, _⟩ := key fa
+    exact ⟨r, m', he⟩
+  · obtain ⟨r, m', he, _, _, _, _, hd⟩ := key false
+    refine ⟨r, m', he, fun a => bool_eq_of_iff ?_⟩
+    rw [hd a]
+    simp only [List.map, lvlOf_eq imgM_vars_x, lvlOf_eq imgM_vars_xp]
+    have e1 : renOf [(((1 : Nat) : Int), ((0 : Nat) : Int))] 1 = 0 := by decide
+    have e1' : renOf [(1, 0)] 1 = 0 := by decide
+    constructor
+    · rintro ⟨b, hb, hf⟩
+      have hb1 := hb 1 (by simp)
+      dsimp only at hb1 hf
+      rw [e1] at hb1
+      rw [imgM_den3, imgM_den4] at hf
+      rw [← hb1]
+      revert hf
+      cases b 0 <;> cases b 1 <;> simp
+    · intro ha
+      refine ⟨upd (fun z => a (renOf [(((1 : Nat) : Int), ((0 : Nat) : Int))] z)) 0 true,
+        agreeOff_upd (by simp) true (AgreeOff.refl _ _), ?_⟩
+      dsimp only
+      rw [imgM_den3, imgM_den4]
+      simp [upd, e1', ha]
+
+/-- non-vacuity (`C13_image`, keys as levels; `C13_rename_levels`) -/
+example : ∀ fa, ∃ r m', image 3 4 [(.lvl 1, .lvl 0)] [.lvl 0] fa imgM = (.ok r, m') ∧
+    ∀ a, den m'.tbl r a = true ↔
+      qsem fa [0] (fun b => den imgM.tbl 3 b && den imgM.tbl 4 b)
+        (fun z => a (renOf [(1, 0)] z)) := by
+  intro fa
+  obtain ⟨hres, hip⟩ := C13_rename_levels imgM.tbl [(1, 0)] (by simp)
+  simp only [List.map] at hres hip
+  obtain ⟨r, m', he, _, _, _, _, hd⟩ := C13_image imgM imgM_inv rfl imgM_varsBij 3 4
+    (imgM_mem _ (by decide)) (imgM_mem _ (by decide)) [(.lvl 1, .lvl 0)] [.lvl 0] fa [0]
+    (by rfl) (by rw [hres]; decide) (by rw [hres]; decide)
+    (by
+      rw [hres, hip]; intro p hp; simp at hp; subst hp; rw [imgM_nvars']; decide)
+    (by
+      rw [hres, hip]; intro p hp l hl; simp at hp; subst hp
+      simp only at hl
+      left
+      have : l = 0 := by omega
+      subst this; simp)
+  rw [hres, hip] at hd
+  exact ⟨r, m', he, hd⟩
+
 /-- C13 (`image` refuses): AssertionError, manager untouched, (1) when a key of the renaming is
 also a value, (2) when a rename target is in the support of an operand and is not quantified -/
 theorem C13_image_refuses (m : Mgr) (hI : Inv m) (hV : VarsBij m.tbl)
@@ -140,6 +318,27 @@ theorem C13_image_refuses (m : Mgr) (hI : Inv m) (hV : VarsBij m.tbl)
    fun hov hnl hlv p l hp hl hlq hdep =>
      image_refuses_target m hI hV trans source hu hv rn qvars fa q hq hov hnl hlv p hp l hl hlq
        hdep⟩
+
+theorem imgM_dep3_0 : dependsOn imgM.tbl 3 0 := by
+  refine ⟨fun _ => false, ?_⟩
+  rw [imgM_den3, imgM_den3]
+  simp [upd]
+
+/-- non-vacuity (`C13_image_refuses`): (1) `{x: xp, xp: x}` overlaps; (2) `{xp: x}` with `x` in
+the support of `trans = (x ↔ xp)` and nothing quantified -/
+example : image 3 4 [(.lvl 0, .lvl 1), (.lvl 1, .lvl 0)] [] false imgM = (.error .assertion, imgM) ∧
+    image 3 4 [(.lvl 1, .lvl 0)] [] false imgM = (.error .assertion, imgM) := by
+  constructor
+  · exact (C13_image_refuses imgM imgM_inv imgM_varsBij 3 4 (imgM_mem _ (by decide))
+      (imgM_mem _ (by decide)) _ [] false [] (by rfl)).1 (by decide)
+  · obtain ⟨hres, hip⟩ := C13_rename_levels imgM.tbl [(1, 0)] (by simp)
+    simp only [List.map] at hres hip
+    refine (C13_image_refuses imgM imgM_inv imgM_varsBij 3 4 (imgM_mem _ (by decide))
+      (imgM_mem _ (by decide)) [(.lvl 1, .lvl 0)] [] false [] (by rfl)).2
+      (by rw [hres]; decide) (by rw [hres]; decide) ?_ (1, 0) 0 ?_ rfl (by simp)
+      (Or.inl imgM_dep3_0)
+    · rw [hres, hip]; intro p hp; simp at hp; subst hp; rw [imgM_nvars']; decide
+    · rw [hres, hip]; simp
 
 /-! ### `preimage` -/
 
@@ -177,6 +376,88 @@ theorem C13_preimage_partial (m : Mgr) (hI : Inv m) (hoff : m.lastLen = none)
     PreimagePost m trans target rn qvars fa q :=
   preimage_spec_partial m hI hoff hV trans target hu hv rn qvars fa q hq hpre.nonempty
     hpre.noOverlap hpre.levels hpre.adjacent hpre.injective hind
+
+/-- C13 (`preimage`, renaming and `qvars` given BY NAME) — proved part: declared names, pairwise
+distinct keys, no key is a value, partners adjacent, no two keys with the same value, and the
+target independent of every value of the renaming -/
+theorem C13_preimage_names_partial (m : Mgr) (hI : Inv m) (hoff : m.lastLen = none)
+    (hV : VarsBij m.tbl) (trans target : Int) (hu : m.tbl.Mem trans) (hv : m.tbl.Mem target)
+    (l : List (String × String)) (qs : List String) (fa : Bool)
+    (hkeys : (l.map (·.1)).Nodup)
+    (hd : ∀ p, p ∈ l → m.tbl.vars.contains p.1 = true ∧ m.tbl.vars.contains p.2 = true)
+    (hqd : ∀ s, s ∈ qs → m.tbl.vars.contains s = true)
+    (hov : ∀ p p', p ∈ l → p' ∈ l → p.2 ≠ p'.1)
+    (hadj : ∀ p, p ∈ l → ((lvlOf m.tbl p.1 : Int) - (lvlOf m.tbl p.2 : Int)).natAbs = 1)
+    (hinj : ∀ p p', p ∈ l → p' ∈ l → p.2 = p'.2 → p.1 = p'.1)
+    (hind : ∀ p, p ∈ l → ¬ dependsOn m.tbl target (lvlOf m.tbl p.2)) :
+    ∃ r m', preimage trans target (l.map fun p => (Key.name p.1, Key.name p.2))
+        (qs.map Key.name) fa m = (.ok r, m') ∧ Inv m' ∧ Ext m.tbl m'.tbl ∧
+      m'.tbl.Mem r ∧ Frame m m' ∧
+      ∀ a, den m'.tbl r a = true ↔
+        qsem fa (qs.map (lvlOf m.tbl)) (fun b => den m.tbl trans b && den m.tbl target
+          (fun j => b (renOf
+            (l.map fun p => ((lvlOf m.tbl p.1 : Int), (lvlOf m.tbl p.2 : Int))) j))) a :=
+  preimage_spec_partial_names m hI hoff hV trans target hu hv l qs fa hkeys hd hqd hov hadj hinj
+    hind
+
+theorem imgM_indep5_1 : ¬ dependsOn imgM.tbl 5 1 := by
+  rintro ⟨a, h⟩
+  apply h
+  rw [imgM_den5, imgM_den5]
+  simp [upd]
+
+/-- non-vacuity (`C13_preimage_partial`, `C13_preimage_names_partial`, both quantifier kinds):
+`preimage(x ↔ xp, x, {x: xp}, {xp})`: the target `x` does not depend on `xp`; for `∃` the result
+is `∃ xp. (x ↔ xp) ∧ xp`, that is `x` -/
+example : (∀ fa, PreimagePost imgM 3 5 [(.lvl 0, .lvl 1)] [.lvl 1] fa [1]) ∧
+    ∃ r m', preimage 3 5 [(.name "x", .name "xp")] [.name "xp"] false imgM = (.ok r, m') ∧
+      ∀ a, den m'.tbl r a = a 0 := by
+  constructor
+  · intro fa
+    obtain ⟨hres, hip⟩ := C13_rename_levels imgM.tbl [(0, 1)] (by simp)
+    simp only [List.map] at hres hip
+    refine C13_preimage_partial imgM imgM_inv rfl imgM_varsBij 3 5 (imgM_mem _ (by decide))
+      (imgM_mem _ (by decide)) [(.lvl 0, .lvl 1)] [.lvl 1] fa [1] (by rfl) ?_ ?_
+    · refine ⟨fun _ => by rw [imgM_nvars']; omega, by rw [hres]; decide, ?_, ?_, ?_⟩
+      · rw [hres, hip]; intro p hp; simp at hp; subst hp; rw [imgM_nvars']; decide
+      · rw [hres, hip]; intro p hp; simp at hp; subst hp; decide
+      · rw [hres, hip]; intro p p' hp hp' _; simp at hp hp'; rw [hp, hp']
+    · rw [hres, hip]; intro p hp l hl; simp at hp; subst hp
+      simp only at hl
+      have : l = 1 := by omega
+      subst this
+      exact imgM_indep5_1
+  · obtain ⟨r, m', he, _, _, _, _, hd⟩ := C13_preimage_names_partial imgM imgM_inv rfl
+      imgM_varsBij 3 5 (imgM_mem _ (by decide)) (imgM_mem _ (by decide)) [("x", "xp")] ["xp"]
+      false (by simp)
+      (by intro p hp; simp at hp; subst hp; exact ⟨imgM_contains_x, imgM_contains_xp⟩)
+      (by intro s hs; simp at hs; subst hs; exact imgM_contains_xp)
+      (by intro p p' hp hp'; simp at hp hp'; subst hp hp'; decide)
+      (by
+        intro p hp; simp at hp; subst hp
+        rw [lvlOf_eq imgM_vars_x, lvlOf_eq imgM_vars_xp]; decide)
+      (by intro p p' hp hp' _; simp at hp hp'; rw [hp, hp'])
+      (by
+        intro p hp; simp at hp; subst hp
+        rw [lvlOf_eq imgM_vars_xp]; exact imgM_indep5_1)
+    refine ⟨r, m', he, fun a => bool_eq_of_iff ?_⟩
+    rw [hd a]
+    simp only [List.map, lvlOf_eq imgM_vars_x, lvlOf_eq imgM_vars_xp]
+    have e0 : renOf [(((0 : Nat) : Int), ((1 : Nat) : Int))] 0 = 1 := by decide
+    have e0' : renOf [(0, 1)] 0 = 1 := by decide
+    constructor
+    · rintro ⟨b, hb, hf⟩
+      have hb0 := hb 0 (by simp)
+      dsimp only at hf
+      rw [imgM_den3, imgM_den5, e0] at hf
+      rw [← hb0]
+      revert hf
+      cases b 0 <;> cases b 1 <;> simp
+    · intro ha
+      refine ⟨upd a 1 true, agreeOff_upd (by simp) true (AgreeOff.refl _ _), ?_⟩
+      dsimp only
+      rw [imgM_den3, imgM_den5]
+      simp [upd, e0', ha]
 
 /-- C13 (`preimage`), FULL statement — the same without the independence hypothesis.  It is
 FALSE of the code (`C13_preimage_statement_false`, finding F5); what is missing for a proof is
